@@ -26,7 +26,7 @@ type PanicSite struct {
 
 // PanicCfg carries the API preconditions of the property.
 type PanicCfg struct {
-	P *load.Program
+	P      *load.Program
 	nnMemo map[ssa.Value]nnRes
 	// NonNilPaths: access paths assumed non-nil by the property's
 	// preconditions, written as "<recv>.Field" suffixes, e.g. ".Memory".
@@ -699,6 +699,8 @@ func (cfg *PanicCfg) Sites() []PanicSite {
 							add(fn, in, "index", "array element", k >= 0 && k < arr.Len(), "ARRAY-CONST-INDEX", "constant index out of range")
 						} else if ib, ok := x.Index.Type().Underlying().(*types.Basic); ok && ib.Info()&types.IsUnsigned != 0 && cfg.P.Sizes.Sizeof(x.Index.Type()) <= 4 && int64(1)<<(8*uint(cfg.P.Sizes.Sizeof(x.Index.Type()))) <= arr.Len() {
 							add(fn, in, "index", "array element", true, "ARRAY-INDEX-BY-TYPE: the index type cannot exceed the array length", "")
+						} else if maskedBelow(x.Index, arr.Len()) {
+							add(fn, in, "index", "array element", true, "MASKED-INDEX: the index is masked (x & k, k < len) below the array length", "")
 						} else {
 							add(fn, in, "index", "array element", false, "", "array indexed by a value that may exceed its length")
 						}
@@ -798,6 +800,12 @@ func (cfg *PanicCfg) Sites() []PanicSite {
 							add(fn, in, "call-value", b.Name(), false, "", "builtin may panic")
 						}
 					case cc.StaticCallee() == nil:
+						if ResolveFuncValue != nil {
+							if fs, ok := ResolveFuncValue(cc.Value); ok && len(fs) > 0 {
+								add(fn, in, "call-value", "call of a function value", true, "CONST-FUNC-TABLE: every entry of the initialisation-only table is a function", "")
+								continue
+							}
+						}
 						if ok, by := cfg.nonNilValue(cc.Value, 0); ok {
 							add(fn, in, "call-value", "call of a function value", true, "NON-NIL-BY-CONSTRUCTION: "+by, "")
 						} else {
@@ -1042,6 +1050,32 @@ func (cfg *PanicCfg) overlayIndex(fn *ssa.Function, x *ssa.IndexAddr) (bool, str
 		return false, "constructor never called"
 	}
 	return true, "OVERLAY-INDEX: index addr-start under !(addr<start || addr>end), end = start+uint16(len(data)-1) written only by " + ctor.Name() + ", which is only called under len(data) > 0 (if start+len-1 wraps the guard is unsatisfiable; otherwise addr-start <= len-1)"
+}
+
+// maskedBelow: v is (x & k) with constant k < n (through widenings).
+func maskedBelow(v ssa.Value, n int64) bool {
+	v = stripWiden(v)
+	if c, ok := v.(*ssa.Convert); ok {
+		v = c.X
+	}
+	b, ok := v.(*ssa.BinOp)
+	if !ok {
+		return false
+	}
+	switch b.Op {
+	case token.AND:
+		if k, ok := constInt(b.Y); ok && k >= 0 && k < n {
+			return true
+		}
+		if k, ok := constInt(b.X); ok && k >= 0 && k < n {
+			return true
+		}
+	case token.REM:
+		if k, ok := constInt(b.Y); ok && k > 0 && k <= n && unsignedNonNeg(b.X) {
+			return true
+		}
+	}
+	return false
 }
 
 func zeroIndex(fn *ssa.Function) ssa.Value {
